@@ -47,7 +47,8 @@ def plan_dp(tier, seed, props):
     # every kind of value; sibling containers with same-named array children
     items += [item("kinds", NONE, 0.06 if q else 0.5), item("siblings", NONE, 0.3 if q else 1.0)]
     # sizes beyond any small threshold: 17- and 33-element arrays, 20-member objects
-    items += [item("long_root", NONE, 0.2 if q else 1.0, False), item("long_key", NONE, 0.2 if q else 1.0, False),
+    items += [item("wide40", NONE, 1.0, False), item("wide40", MERGE, 1.0, False),
+              item("long_root", NONE, 0.2 if q else 1.0, False), item("long_key", NONE, 0.2 if q else 1.0, False),
               item("long_elem", NONE, 0.2 if q else 1.0, False), item("wide", NONE, 1.0, False)]
     # the second document spells its zeros -0 (the same number: nothing changes for the specification)
     items += [item("kinds", NONE, 0.03 if q else 0.3, mode="negzero")]
@@ -57,6 +58,8 @@ def plan_dp(tier, seed, props):
         return items
     if "C07" in props or not q:
         items += [item("huge", NONE, 1.0, False)]       # 2100-element arrays: thresholds in the thousands
+    # 4300-element arrays (an LCS table of 18 million cells): the cheap judges only (round trip, emptiness, no value both removed and added)
+    items += [item("huge2", NONE, 0.35 if q else 1.0, False)]
     items += [item("kinds", o, 0.015 if q else 0.15, mode="negzero") for o in (SET, MSET, MERGE)]
     others = [SET, MSET, MERGE, SETMERGE, MSETMERGE]
     for o in others:
@@ -198,7 +201,8 @@ def plan_mg(tier, seed, props):
                   item("nestarr_2", o, (0.1 if q else 0.6) * f, False), item("keyed_2", o, (0.4 if q else 1.0) * f, False),
                   item("deepobj", o, (0.3 if q else 1.0) * f, False), item("scalarr_4_3", o, (0.05 if q else 0.3) * f, False),
                   item("kinds", o, (0.1 if q else 1.0) * f, False), item("siblings", o, (0.2 if q else 1.0) * f, False),
-                  item("long_key", o, (0.1 if q else 1.0) * f, False), item("wide", o, (0.5 if q else 1.0) * f, False)]
+                  item("long_key", o, (0.1 if q else 1.0) * f, False), item("wide", o, (0.5 if q else 1.0) * f, False),
+                  item("wide40", o, 1.0 * f, False)]
         if not q:
             items += [item("obj_3", o, 0.2 * f, False)]
     return items
